@@ -421,8 +421,11 @@ class Runtime:
             if kind in ("list", "gen"):
                 return self._sym_listcomp(elt, cond, it)
             raise Undecided(f"{kind} comprehension over a symbolic-length container")
-        if kind in ("list", "gen"):
+        if kind == "list":
             return [elt(x) for x in it if (cond is None or cond(x))]
+        if kind == "gen":
+            # a generator expression over a concrete iterable stays a (lazy) iterator: next(), short-circuiting any()/all()
+            return (elt(x) for x in it if (cond is None or cond(x)))
         if kind == "set":
             return {elt(x) for x in it if (cond is None or cond(x))}
         if kind == "dict":
